@@ -492,6 +492,9 @@ class Graph(object):
             # Apply the updates
             update_start_time = time.time()
             for v in self._vertices:
+                # Fixed vertices are never moved (``dx`` is only guaranteed to be zero for them when the system is non-singular)
+                if v.gradient_index in self._fixed_gradient_indices:
+                    continue
                 # fmt: off
                 v.pose += dx[v.gradient_index: v.gradient_index + v.pose.COMPACT_DIMENSIONALITY]
                 # fmt: on
